@@ -19,6 +19,7 @@ import (
 	"path/filepath"
 	"sort"
 	"strings"
+	"sync"
 	"time"
 )
 
@@ -363,6 +364,37 @@ func SameSnapshot(a, b *Snap) bool {
 		}
 	}
 	return true
+}
+
+// Go starts a harness goroutine (under the schedule variable in the engine).
+func Go(role string, f func()) {
+	goWG.Add(1)
+	go func() {
+		defer goWG.Done()
+		f()
+	}()
+}
+
+var goWG sync.WaitGroup
+
+// Atomic runs f without a scheduling point inside (harness ghost updates).
+func Atomic(f func()) {
+	atomicMu.Lock()
+	defer atomicMu.Unlock()
+	f()
+}
+
+var atomicMu sync.Mutex
+
+// WaitQuiescent returns when every goroutine started with Go has finished or is
+// blocked for good (engine: no goroutine can make progress; natively: a grace period).
+func WaitQuiescent() {
+	ch := make(chan struct{})
+	go func() { goWG.Wait(); close(ch) }()
+	select {
+	case <-ch:
+	case <-time.After(300 * time.Millisecond):
+	}
 }
 
 // CrashTaps returns the number of crash points seen so far (engine only).
